@@ -567,7 +567,7 @@ pub fn run(tier: &str) -> i32 {
     cases.extend(cycles());
     cases.extend(mutants(thorough));
     let wall = Some(Instant::now() + Duration::from_secs(if thorough { 3000 } else { 45 }));
-    let (outs, capped) = run_isolated(&cases, 5_000, wall);
+    let (outs, capped) = run_isolated(&cases, 20_000, wall);
     rep.states = outs.len() as u64;
     rep.transitions = outs.len() as u64;
     rep.traces = outs.len() as u64;
@@ -587,7 +587,7 @@ pub fn run(tier: &str) -> i32 {
                 rep.violate(&format!("panic:{}:{}", class, panic_site(msg)), format!("panic `{}` in class {}: {}", msg.chars().take(160).collect::<String>(), class, c.to_string().chars().take(400).collect::<String>()), replay);
             }
             "died" => rep.violate(&format!("abort:{}", class), format!("worker process died ({}) on {}", o.detail["why"], c.to_string().chars().take(400).collect::<String>()), replay),
-            "timeout" => rep.violate(&format!("hang:{}", class), format!("no result within 5 s on {}", c.to_string().chars().take(400).collect::<String>()), replay),
+            "timeout" => rep.violate(&format!("hang:{}", class), format!("no result within 20 s on {}", c.to_string().chars().take(400).collect::<String>()), replay),
             _ => {
                 // documented exit codes only
                 if c["kind"] == "cli" {
@@ -623,11 +623,11 @@ pub fn run(tier: &str) -> i32 {
     }
     rep.distinct_nontrivial = cases.len() as u64;
     rep.extra.insert("cases_by_class".into(), json!(by_class));
-    rep.extra.insert("per_case_deadline_ms".into(), json!(5000));
+    rep.extra.insert("per_case_deadline_ms".into(), json!(20000));
     rep.samples.push(cases[0].clone());
     rep.samples.push(cases[cases.len() / 2].clone());
     rep.samples.push(cases[cases.len() - 1].clone());
-    rep.rule = "states = inputs: adversarial classes enumerated completely over small alphabets (filter placement x value shapes, every built-in x argument position x argument kind, literal variables x operators, key interpolation, look-around / back-reference / catastrophic regexes, odd indices, malformed data with a multi-byte character at every offset 88..111, console reporters on CloudFormation / Terraform shaped data in every summary mode and via stdin, test files, payloads, invalid UTF-8, rule / variable reference cycles, deep nesting) and all single character edits (24-character alphabet incl. NUL and 2-, 3-, 4-byte characters) plus token deletions / duplications / swaps of a seed corpus of rules, data, test, payload and parameter files; every case runs in an isolated worker process with a 5 s deadline".into();
+    rep.rule = "states = inputs: adversarial classes enumerated completely over small alphabets (filter placement x value shapes, every built-in x argument position x argument kind, literal variables x operators, key interpolation, look-around / back-reference / catastrophic regexes, odd indices, malformed data with a multi-byte character at every offset 88..111, console reporters on CloudFormation / Terraform shaped data in every summary mode and via stdin, test files, payloads, invalid UTF-8, rule / variable reference cycles, deep nesting) and all single character edits (24-character alphabet incl. NUL and 2-, 3-, 4-byte characters) plus token deletions / duplications / swaps of a seed corpus of rules, data, test, payload and parameter files; every case runs in an isolated worker process with a 20 s deadline".into();
     rep.assumptions = vec!["in-process execution through the library and CfnGuard::execute inside worker processes; rulegen and the real binary's exit mapping are exercised by C19 and C06".into(), "inputs more than one edit away from the seed corpus and the enumerated classes are not covered".into()];
     rep.finish()
 }
